@@ -1051,8 +1051,12 @@ evhttp_handle_chunked_read(struct evhttp_request *req, struct evbuffer *buf)
 				return (DATA_CORRUPTED);
 			}
 			ntoread = evutil_strtoll(p, &endp, 16);
+			/* the chunk size may be followed by (bad) whitespace
+			 * and by chunk extensions, which are ignored
+			 * (RFC 9112 7.1.1) */
 			error = (*p == '\0' ||
-			    (*endp != '\0' && *endp != ' ') ||
+			    (*endp != '\0' && *endp != ' ' && *endp != '\t' &&
+				*endp != ';') ||
 			    ntoread < 0);
 			mm_free(p);
 			if (error) {
